@@ -13,6 +13,7 @@ import (
 	"runtime"
 	"sort"
 	"strconv"
+	"strings"
 	"sync"
 	"sync/atomic"
 	"time"
@@ -63,6 +64,35 @@ func (r *recorder) lines() []string {
 	return out
 }
 
+// maxOverlap: over all calls of an `inv t …` / `res t …` event list, the largest number of invocations by OTHER goroutines inside one call's interval
+func maxOverlap(lines []string) int {
+	open := map[string]int{} // goroutine -> invocations of others seen since its own inv
+	worst := 0
+	for _, l := range lines {
+		f := strings.Fields(l)
+		if len(f) < 2 {
+			continue
+		}
+		switch f[0] {
+		case "inv":
+			for t := range open {
+				if t != f[1] {
+					open[t]++
+				}
+			}
+			open[f[1]] = 0
+		case "res":
+			if n, ok := open[f[1]]; ok {
+				if n > worst {
+					worst = n
+				}
+				delete(open, f[1])
+			}
+		}
+	}
+	return worst
+}
+
 func nativeMain(kind string, args []string) int {
 	if len(args) < 2 {
 		fmt.Fprintln(os.Stderr, "usage: harness once|av|pool <seed> <n>")
@@ -97,12 +127,28 @@ func nativeMain(kind string, args []string) int {
 		case "kmstress":
 			runtime.GOMAXPROCS(8)
 			header, comment, lines = kmStress(r)
-		case "avstress":
+		case "avstress", "poolstress":
+			// A goroutine descheduled inside one call while the others complete dozens of calls makes the number of candidate linearizations
+			// (and the judge's state set) grow with every overlapped call. Such a run says little about the object and can take the judge minutes, so
+			// a run in which one call overlaps more than 24 invocations of other goroutines is taken again (the least stalled of up to 8 runs is kept).
+			// This is a choice of WHICH real executions are recorded; every recorded one is judged in full.
 			runtime.GOMAXPROCS(8)
-			header, comment, lines = avStress(r)
-		case "poolstress":
-			runtime.GOMAXPROCS(8)
-			header, comment, lines = poolStress(r)
+			best := -1
+			for try := 0; try < 8; try++ {
+				var h, c string
+				var ls []string
+				if kind == "avstress" {
+					h, c, ls = avStress(r)
+				} else {
+					h, c, ls = poolStress(r)
+				}
+				if ov := maxOverlap(ls); best < 0 || ov < best {
+					best, header, comment, lines = ov, h, fmt.Sprintf("%s overlap=%d", c, ov), ls
+				}
+				if best <= 24 {
+					break
+				}
+			}
 		case "mapstress":
 			header, comment, lines = mapStress(r)
 		case "setstress":
@@ -414,6 +460,13 @@ func kmStress(r *rand.Rand) (string, string, []string) {
 func avStress(r *rand.Rand) (string, string, []string) {
 	nw := 3 + r.Intn(2)
 	nops := 150 + r.Intn(150)
+	// one scenario in four is SHORT and starts on the never-stored register with mostly CompareAndSwap(0, v) / Store / Load, so that the empty-register
+	// paths (CompareAndSwap on an empty value fails; the first Store racing a CompareAndSwap) are exercised in every such run, not once per long run
+	small := r.Intn(4) == 0
+	if small {
+		nw = 2 + r.Intn(2)
+		nops = 1 + r.Intn(3)
+	}
 	var av sync2.AtomicValue[int]
 	fl := newFastLog(nw)
 	type rec struct {
@@ -428,6 +481,9 @@ func avStress(r *rand.Rand) (string, string, []string) {
 		kinds[t] = make([]int, nops)
 		for j := range kinds[t] {
 			kinds[t][j] = r.Intn(10)
+			if small {
+				kinds[t][j] = []int{9, 9, 9, 7, 7, 6, 0}[r.Intn(7)]
+			}
 		}
 		recs[t] = make([]rec, nops)
 	}
@@ -495,7 +551,7 @@ func avFirst(r *rand.Rand) (string, string, []string) {
 	fl := newFastLog(nw)
 	kinds := make([]int, nw)
 	for i := range kinds {
-		kinds[i] = r.Intn(4)
+		kinds[i] = r.Intn(7)
 	}
 	type rec struct {
 		inv, res  int64
@@ -526,6 +582,17 @@ func avFirst(r *rand.Rand) (string, string, []string) {
 				av.Store(val)
 				rc.res = fl.stamp()
 				rc.out = "done"
+			case 4, 5, 6:
+				// CompareAndSwap on the (possibly still) empty register: expecting the zero value, or a value nobody stores - it must fail without effect
+				old := 0
+				if kinds[t] == 6 {
+					old = 7
+				}
+				rc.text = fmt.Sprintf("cas %d %d", old, val)
+				rc.inv = fl.stamp()
+				ok := av.CompareAndSwap(old, val)
+				rc.res = fl.stamp()
+				rc.out = btoa(ok)
 			default:
 				rc.text = "load"
 				rc.inv = fl.stamp()
@@ -991,10 +1058,27 @@ func setStress(r *rand.Rand) (string, string, []string) {
 	vals := 1 + r.Intn(3)
 	rec := &recorder{}
 	s := &sync2.Set[int]{}
-	seeds := make([]int64, nw)
+	seeds := make([]int64, 8)
 	for i := range seeds {
 		seeds[i] = r.Int63()
 	}
+	// one scenario in six works on a LARGE set (more members than any small-map threshold: 65..300), filled and promoted by goroutine 0 before
+	// the others start; the workers then also remove / re-add a few of the old members and add fresh ones (which rebuilds the dirty map)
+	big := 0
+	if r.Intn(6) == 0 {
+		big = []int{65, 66, 70, 100, 130, 257, 300}[r.Intn(7)]
+		nw = 1 + r.Intn(3)
+		nops = 6 + r.Intn(6)
+		for v := 0; v < big; v++ {
+			rec.log("inv 0 add %d", 1000+v)
+			ok := s.Add(1000 + v)
+			rec.log("res 0 %s", btoa(ok))
+		}
+		rec.log("inv 0 len")
+		n0 := s.Len()
+		rec.log("res 0 %d", n0)
+	}
+	var fresh int64 = 2000
 	var wg sync.WaitGroup
 	start := make(chan struct{})
 	for t := 0; t < nw; t++ {
@@ -1005,6 +1089,18 @@ func setStress(r *rand.Rand) (string, string, []string) {
 			<-start
 			for j := 0; j < nops; j++ {
 				v := lr.Intn(vals)
+				if big > 0 {
+					switch k := lr.Intn(10); {
+					case k < 4:
+						v = 1000 + lr.Intn(2) // an old member
+					case k < 6:
+						v = int(atomic.AddInt64(&fresh, 1)) // a value never seen: the Add goes through the dirty map
+						rec.log("inv %d add %d", t, v)
+						ok := s.Add(v)
+						rec.log("res %d %s", t, btoa(ok))
+						continue
+					}
+				}
 				switch lr.Intn(7) {
 				case 0, 1, 2:
 					rec.log("inv %d add %d", t, v)
@@ -1028,5 +1124,19 @@ func setStress(r *rand.Rand) (string, string, []string) {
 	}
 	close(start)
 	wg.Wait()
-	return "cset", fmt.Sprintf("native set workers=%d ops=%d values=%d", nw, nops, vals), rec.lines()
+	if big > 0 {
+		// closing observations by goroutine 0: Len (promotes), then the two contended old members and Len again
+		for _, v := range []int{-1, 1000, 1001, -1} {
+			if v < 0 {
+				rec.log("inv 0 len")
+				n := s.Len()
+				rec.log("res 0 %d", n)
+			} else {
+				rec.log("inv 0 has %d", v)
+				ok := s.Has(v)
+				rec.log("res 0 %s", btoa(ok))
+			}
+		}
+	}
+	return "cset", fmt.Sprintf("native set workers=%d ops=%d values=%d big=%d", nw, nops, vals, big), rec.lines()
 }
